@@ -10,14 +10,138 @@ import struct
 from ..lengths import INF, BytesTyper, LengthAnalysis, annotation_text
 from ..lengths import protected as _protected_by_try
 from ..match import arg, call_name, calls, fact_of, facts_at, is_param, local_defs, mentions, names_in, resolve, same_resolved, single_def
-from ..model import NOCONST as NOCONST_, AnalysisError, FuncInfo, chain, const_value, enclosing_stmt, norm, parent, strip_cast, walk_no_nested
+from ..model import NOCONST as NOCONST_, AnalysisError, FuncInfo, chain, const_value, enclosing_stmt, head, norm, parent, strip_cast, walk_no_nested
 
 LEVEL = "other"
+
+
+_TRANSPARENT_DECORATORS = {"staticmethod", "classmethod", "abstractmethod", "abc.abstractmethod", "override", "typing.override", "final",
+                           "typing.final"}
+_REPO_BOX: list = [None]
+
+
+def _returned_def(fn):
+    """the nested function definition that `fn` returns on every path (`def wrapper(...): ...` / `return wrapper`), else None"""
+    rets = [n for n in walk_no_nested(fn) if isinstance(n, ast.Return)]
+    if not rets or any(not isinstance(r.value, ast.Name) for r in rets) or len({r.value.id for r in rets}) != 1:
+        return None
+    name = rets[0].value.id
+    defs = [n for n in walk_no_nested(fn) if isinstance(n, (ast.FunctionDef, ast.AsyncFunctionDef)) and n is not fn and n.name == name]
+    stores = [n for n in walk_no_nested(fn) if isinstance(n, ast.Name) and n.id == name and isinstance(n.ctx, ast.Store)]
+    return defs[0] if len(defs) == 1 and not stores else None
+
+
+def _decorator_layer(repo, module, d: ast.expr):
+    """
+    (wrapper FuncInfo, [calls of the decorated function inside the wrapper]) for a decorator written in the library as
+
+        def deco(func):                       def deco(arg, ...):
+            def wrapper(self, ...):               def inner(func):
+                ... func(self, ...) ...               def wrapper(self, ...): ... func(self, ...) ...
+            return wrapper                            return wrapper
+                                                  return inner
+
+    applied as `@deco` / `@deco(...)`: the decorated name denotes `wrapper`, and the decorated body runs exactly where the wrapper
+    calls `func` (func is used for nothing else but `wraps(func)` / `func.__name__`).  None when the decorator is not of that form.
+    """
+    f = d.func if isinstance(d, ast.Call) else d
+    if not isinstance(f, ast.Name):
+        return None
+    D = repo.resolve_name(module, f.id)
+    if not isinstance(D, FuncInfo) or D.cls is not None or isinstance(D.node, ast.Lambda) or D.is_async:
+        return None
+    deco = D.node
+    if isinstance(d, ast.Call):
+        deco = _returned_def(deco)
+        if deco is None or isinstance(deco, ast.AsyncFunctionDef):
+            return None
+    a = deco.args
+    if len(a.posonlyargs + a.args) != 1 or a.vararg or a.kwarg or a.kwonlyargs:
+        return None
+    fname = (a.posonlyargs + a.args)[0].arg
+    wnode = _returned_def(deco)
+    if wnode is None:
+        return None
+    inner: list[ast.Call] = []
+    for n in ast.walk(deco):
+        if isinstance(n, ast.Name) and n.id == fname:
+            if not isinstance(n.ctx, ast.Load):
+                return None
+            p = parent(n)
+            if isinstance(p, ast.Call) and p.func is n and enclosing_function_node(p) is wnode:
+                inner.append(p)
+            elif isinstance(p, ast.Call) and n in p.args and (chain(p.func) or "").split(".")[-1] in ("wraps", "update_wrapper"):
+                continue
+            elif isinstance(p, ast.Attribute) and p.attr in ("__name__", "__qualname__", "__doc__", "__module__"):
+                continue
+            else:
+                return None
+        elif isinstance(n, ast.arg) and n.arg == fname and n is not (a.posonlyargs + a.args)[0]:
+            return None                           # shadowed in a nested definition
+    if not inner or getattr(wnode, "_info", None) is None:
+        return None
+    return wnode._info, inner
+
+
+def enclosing_function_node(n: ast.AST):
+    p = parent(n)
+    while p is not None and not isinstance(p, (ast.FunctionDef, ast.AsyncFunctionDef, ast.Lambda)):
+        p = parent(p)
+    return p
+
+
+def _wrap_layers(repo, t: FuncInfo):
+    """[(wrapper, inner calls)] outermost first for the decorators of t; [] when t is not wrapped; None when some decorator is not
+    understood (then nothing is concluded from any of them)."""
+    if repo is None or isinstance(t.node, ast.Lambda) or not t.node.decorator_list:
+        return []
+    cache = repo.__dict__.setdefault("_c03_wrap_layers", {})
+    if t in cache:
+        return cache[t]
+    layers: list | None = []
+    for d in t.node.decorator_list:
+        name = chain(d.func if isinstance(d, ast.Call) else d)
+        if name in _TRANSPARENT_DECORATORS:
+            continue
+        lay = _decorator_layer(repo, t.module, d)
+        if lay is None:
+            layers = None
+            break
+        layers.append(lay)
+    cache[t] = layers
+    return layers
+
+
+def _runs_on_the_spot(t: FuncInfo, w: FuncInfo, call: ast.Call) -> bool:
+    """the body of t runs while `call` (in wrapper w) is being evaluated: not a generator, and a coroutine is awaited right there"""
+    if any(isinstance(n, (ast.Yield, ast.YieldFrom)) for n in walk_no_nested(t.node)):
+        return False
+    if t.is_async:
+        return w.is_async and isinstance(parent(call), ast.Await)
+    return True
+
+
+def _protected_by_wrapper(fi: FuncInfo) -> bool:
+    """fi is decorated, and one of its decorators runs the decorated body only inside try/except Exception (a guard that several
+    functions repeated, moved into a decorator): whatever the body raises is caught by the wrapper."""
+    layers = _wrap_layers(_REPO_BOX[0], fi)
+    if not layers:
+        return False
+    for i, (w, inner) in enumerate(layers):
+        nxt = layers[i + 1][0] if i + 1 < len(layers) else fi
+        if all(protected(c, w) and _runs_on_the_spot(nxt, w, c) for c in inner):
+            # the layers below this one must run on the spot as well (a coroutine created here and awaited elsewhere is not covered)
+            if all(all(_runs_on_the_spot(layers[j + 1][0] if j + 1 < len(layers) else fi, layers[j][0], c) for c in layers[j][1])
+                   for j in range(i + 1, len(layers))):
+                return True
+    return False
 
 
 def protected(node: ast.AST, fi: FuncInfo) -> bool:
     """node lies in the body of a try with a catch-all handler, or of `with suppress(Exception)` (which is that try)"""
     if _protected_by_try(node, fi):
+        return True
+    if getattr(fi.node, "decorator_list", None) and _REPO_BOX[0] is not None and _protected_by_wrapper(fi):
         return True
     cur, p = node, parent(node)
     while p is not None and cur is not fi.node:
@@ -47,7 +171,19 @@ EXPLANATION = (
     "struct.Struct objects (`HEADER.unpack_from`, `HEADER.size`), `slice(...)` objects and methods picked by name "
     "(`getattr(keys, spec.method)`, methodcaller) denote what they compute. Plus: per concrete endpoint class, the socket address "
     "handed to datagram_received (2 elements for AF_INET, 4 for AF_INET6) is never spread / unpacked into a different number of "
-    "fields (decided on the source as written, hooks and class attributes resolved on that class)."
+    "fields (decided on the source as written, hooks and class attributes resolved on that class). "
+    "Asking forgiveness counts like asking permission: a read under a handler for exactly the exception a short value raises "
+    "(IndexError / struct.error, canonical class names: import aliases and tuples of classes resolved) is covered - also when the handler "
+    "sits in a caller, at EVERY call through which the function is reached -, and a read (or a decoder that reads a fixed header of "
+    "its argument on every path) that completed on every path to a later site proves the length it needs there. A function "
+    "decorated with a library decorator of the plain wrapper form denotes the wrapper: the region goes through the wrapper, what "
+    "dominates the wrapper's call of the decorated function holds on entry of the body (arguments passed through unchanged), a "
+    "wrapper that runs the body inside try/except Exception contains it. Constants derived by calcsize / Struct.size / len() of a "
+    "constant / digest_size are folded. any((..)) that was false / all((..)) that was true give the facts of their elements. "
+    "Plus count-honoured: a loop of a Packer's unpack that decodes one item per wire-announced item (for over range(count), while "
+    "with a counter, while True with a count break) has no normal exit that depends on anything but the count and the counter. "
+    "Plus lock-released: a lock taken with an explicit .acquire() call anywhere in the library is released on every normal and "
+    "exceptional way out of the function (a lock left held by a contained handler exception blocks the delivery of every later datagram)."
 )
 
 SER = "ipv8/messaging/serialization.py"
@@ -88,6 +224,12 @@ class _Decisions:
         base = facts_at(cfg, site)
         nodes = [site] if isinstance(site, _CfgNode) else cfg.nodes_for(site)
         der = self.derive(fi, cfg, base, nodes, depth)
+        if depth == 0 and nodes and not isinstance(fi.node, ast.Lambda) and fi.node.decorator_list:
+            # a guard that moved into a decorator: what holds where the wrapper calls `func` holds when the decorated body starts
+            ent = [g for g in self.entry_facts(fi) if self._unchanged(fi, cfg, _fact_names(g), [cfg.entry], nodes)]
+            for g in ent:
+                g.origin = [cfg.entry]
+            der = der + ent + self.derive(fi, cfg, ent, nodes, depth + 1)
         self._memo[key] = base + der
         self._memo[key + ("derived",)] = der
         return base + der
@@ -117,6 +259,28 @@ class _Decisions:
                         g.origin = at
                 out.extend(same)
                 base.extend(same)
+        i_ = 0
+        while i_ < len(base) and i_ < 200:
+            f = base[i_]
+            i_ += 1
+            # an or-chain written as any((a, b, c)) that was false: every element was false; an and-chain written as
+            # all((a, b, c)) that was true: every element was true (a tuple / list display evaluates all its elements, in order)
+            c = strip_cast(f.left) if f.op == "truthy" else None
+            if isinstance(c, ast.Call) and chain(c.func) in ("any", "all") and len(c.args) == 1 and not c.keywords \
+                    and f.pos == (chain(c.func) == "all") and not local_defs(fi, chain(c.func)) and not is_param(fi, chain(c.func)):
+                seq = strip_cast(c.args[0])
+                at = getattr(f, "origin", None) or cfg.by_ast.get(id(f.atom), [])
+                if isinstance(seq, ast.Name) and not is_param(fi, seq.id):
+                    d = single_def(fi, seq.id)
+                    if d is not None and d[1] is None and at and self._unchanged(fi, cfg, {seq.id}, cfg.nodes_for(d[0]), at):
+                        seq, at = strip_cast(d[0]), cfg.nodes_for(d[0])       # the elements were evaluated where the display was built
+                if isinstance(seq, (ast.Tuple, ast.List)) and not any(isinstance(x, ast.Starred) for x in seq.elts) and at:
+                    same = [g for x in seq.elts for g in _atoms_with_polarity(x, f.pos)]
+                    same = self._keep_valid(fi, cfg, same, at, site_nodes)
+                    for g in same:
+                        g.origin = at
+                    out.extend(same)
+                    base.extend(same)
         for f in base:
             if f.op == "truthy" and f.pos and isinstance(f.left, ast.Compare) and len(f.left.ops) > 1:
                 # a chained comparison that held: each link held (`23 <= len(data) <= limit`)
@@ -215,6 +379,62 @@ class _Decisions:
                         if any(s in r for s in site_nodes):
                             return False
         return True
+
+    # ---- a guard carried by a decorator
+    def entry_facts(self, fi: FuncInfo) -> list:
+        """
+        Facts (in fi's own parameter names) that hold whenever the body of the decorated function fi starts: fi's name denotes the
+        wrapper its innermost decorator returns, the body only runs where that wrapper calls `func(...)`, so what dominates EVERY
+        such call - with each wrapper name that is handed over unchanged as an argument replaced by the parameter it is bound to -
+        holds on entry.  Facts that mention any other name of the wrapper are dropped.
+        """
+        key = (fi, "entry")
+        if key in self._memo:
+            return self._memo[key]
+        self._memo[key] = []
+        layers = _wrap_layers(self.repo, fi)
+        out: list = []
+        if layers:
+            w, inner = layers[-1]
+            wcfg = self.ctx.cfg(w)
+            a = fi.node.args
+            params = [p.arg for p in a.posonlyargs + a.args]
+            alts: list[list] = []
+            for c in inner:
+                back: dict[str, str] = {}
+                dup: set[str] = set()
+                plain = True
+                for i, x in enumerate(c.args):
+                    if isinstance(x, ast.Starred) or i >= len(params):
+                        break
+                    if isinstance(x, ast.Name):
+                        if x.id in back:
+                            dup.add(x.id)
+                        back[x.id] = params[i]
+                for k in c.keywords:
+                    if k.arg is not None and isinstance(k.value, ast.Name) and k.arg in params + [p.arg for p in a.kwonlyargs]:
+                        if k.value.id in back:
+                            dup.add(k.value.id)
+                        back[k.value.id] = k.arg
+                for d_ in dup:
+                    back.pop(d_, None)
+                cn = wcfg.nodes_for(c)
+                mine = []
+                for f in self.facts(w, wcfg, c):
+                    names = _fact_names(f)
+                    if not names or not names <= (set(back) | {"len"}):
+                        continue
+                    at = getattr(f, "origin", None) or wcfg.by_ast.get(id(f.atom), [])
+                    if not at or not cn or not self._unchanged(w, wcfg, names, at, cn):
+                        continue
+                    ren = {n: ast.Name(id=back[n], ctx=ast.Load()) for n in names if n in back}
+                    tf = _rename_fact(f, ren)
+                    if tf is not None:
+                        mine.append(tf)
+                alts.append(mine)
+            out = _common(alts)
+        self._memo[key] = out
+        return out
 
     # ---- a check performed by a library function that raises when it fails
     def exit_facts(self, fi: FuncInfo, call: ast.Call, depth: int = 0) -> list:
@@ -543,7 +763,13 @@ def _bind_args(t: FuncInfo, call: ast.Call):
             mapping[params[0]] = call.func.value
         params = params[1:]
     if len(call.args) > len(params):
-        return None
+        if a.vararg is None:
+            return None
+        # the surplus positional arguments ARE the callee's `*args` tuple, in order (`helper(name, handler, *args)` called
+        # as `helper("x", h, a, b)` runs with args == (a, b)); the named parameters are bound as usual
+        rest = ast.Tuple(elts=list(call.args[len(params):]), ctx=ast.Load())
+        ast.copy_location(rest, call)
+        mapping[a.vararg.arg] = rest
     for p, x in zip(params, call.args):
         mapping[p] = x
     allowed = set(params) | {p.arg for p in a.kwonlyargs}
@@ -593,6 +819,27 @@ def _translate(t: FuncInfo, f, mapping: dict):
     left = tr(clone(f.left))
     right = tr(clone(f.right)) if f.right is not None else None
     if not ok[0]:
+        return None
+    return Fact(f.op, left, right, f.pos, left)
+
+
+def _rename_fact(f, ren: dict):
+    """fact f with the names in `ren` replaced by the given expressions (nothing else is touched)"""
+    def tr(e):
+        if isinstance(e, ast.Name):
+            return clone(ren[e.id]) if e.id in ren else e
+        if isinstance(e, (ast.Lambda, ast.ListComp, ast.SetComp, ast.DictComp, ast.GeneratorExp, ast.NamedExpr)):
+            raise ValueError
+        for fld, v in ast.iter_fields(e):
+            if isinstance(v, ast.AST):
+                setattr(e, fld, tr(v))
+            elif isinstance(v, list):
+                setattr(e, fld, [tr(x) if isinstance(x, ast.AST) else x for x in v])
+        return e
+    try:
+        left = tr(clone(f.left))
+        right = tr(clone(f.right)) if f.right is not None else None
+    except ValueError:
         return None
     return Fact(f.op, left, right, f.pos, left)
 
@@ -725,6 +972,7 @@ def _decisions(ctx: Ctx) -> _Decisions:
     if d is None:
         d = ctx.__dict__["_c03_decisions_obj"] = _Decisions(ctx)
     _ENUM_REPO[0] = ctx.repo
+    _REPO_BOX[0] = ctx.repo
     return d
 
 
@@ -748,6 +996,97 @@ def entry_functions(ctx: Ctx) -> list[FuncInfo]:
 
 def _is_abstract(fi: FuncInfo) -> bool:
     return any("abstractmethod" in d for d in fi.decorator_names())
+
+
+_DIGEST_SIZES = {"md5": 16, "sha1": 20, "sha224": 28, "sha256": 32, "sha384": 48, "sha512": 64, "sha3_256": 32, "sha3_512": 64,
+                 "blake2b": 64, "blake2s": 32}
+
+
+def _fold(repo, module, cls, e: ast.AST | None, fi: FuncInfo | None = None, depth: int = 0):
+    """
+    The value a constant expression evaluates to, also when it is DERIVED instead of written as a literal: `calcsize("!I??")`,
+    `Struct("!I??").size` / `HEADER.size`, `len(<constant bytes / str / tuple>)`, `sha1().digest_size`, `hashlib.sha1().digest_size`,
+    arithmetic over such values, a module / class constant or single-assignment local defined that way.  NOCONST when unknown.
+    Every case is the value Python computes for the expression (struct.calcsize is evaluated on the format string).
+    """
+    if e is None or depth > 8:
+        return NOCONST_
+    e = strip_cast(e)
+    shadowed = fi is not None and any(isinstance(n, ast.Name) and (is_param(fi, n.id) or local_defs(fi, n.id)) for n in ast.walk(e))
+    v = repo.resolve_const(module, e, cls) if not shadowed else const_value(e)
+    if v is not NOCONST_:
+        return v
+    if isinstance(e, ast.Call) and not e.keywords:
+        c = chain(e.func) or ""
+        if c in ("calcsize", "struct.calcsize") and len(e.args) == 1:
+            f = _fold(repo, module, cls, e.args[0], fi, depth + 1)
+            if isinstance(f, (str, bytes)):
+                try:
+                    return struct.calcsize(f)
+                except struct.error:
+                    return NOCONST_
+        if c == "len" and len(e.args) == 1:
+            x = _fold(repo, module, cls, e.args[0], fi, depth + 1)
+            if isinstance(x, (bytes, str, tuple, list)):
+                return len(x)
+        if c in ("bytes", "tuple") and len(e.args) == 1:
+            x = _fold(repo, module, cls, e.args[0], fi, depth + 1)
+            if isinstance(x, (tuple, list)) and all(isinstance(i, int) and not isinstance(i, bool) and 0 <= i < 256 for i in x):
+                return bytes(x) if c == "bytes" else tuple(x)
+        return NOCONST_
+    if isinstance(e, ast.Attribute):
+        if e.attr == "size":
+            f = _struct_format(repo, module, cls, e.value, fi)
+            if isinstance(f, (str, bytes)):
+                try:
+                    return struct.calcsize(f)
+                except struct.error:
+                    return NOCONST_
+        if e.attr == "digest_size" and isinstance(e.value, ast.Call) and not e.value.args and not e.value.keywords:
+            c = (chain(e.value.func) or "")
+            name = c.split(".")[-1]
+            imp = module.imports.get(c.split(".")[0])
+            if name in _DIGEST_SIZES and imp is not None and imp[0] == "hashlib":
+                return _DIGEST_SIZES[name]
+        # a class constant that is itself derived: `HEADER_END = 23 + calcsize("!I??")` read as `CellPayload.HEADER_END` / `self.HEADER_END`
+        k = cls if isinstance(e.value, ast.Name) and e.value.id in ("self", "cls") and cls is not None else repo.resolve_class_expr(module, e.value)
+        if k is not None:
+            a = k.lookup_attr(e.attr)
+            if a is not None:
+                owner = next(kk for kk in k.mro() if e.attr in kk.attrs)
+                return _fold(repo, owner.module, owner, a, None, depth + 1)
+        return NOCONST_
+    if isinstance(e, ast.BinOp):
+        l, r = _fold(repo, module, cls, e.left, fi, depth + 1), _fold(repo, module, cls, e.right, fi, depth + 1)
+        if l is NOCONST_ or r is NOCONST_:
+            return NOCONST_
+        try:
+            if isinstance(e.op, ast.Add):
+                return l + r
+            if isinstance(e.op, ast.Sub):
+                return l - r
+            if isinstance(e.op, ast.Mult):
+                return l * r
+            if isinstance(e.op, ast.FloorDiv):
+                return l // r
+        except Exception:  # noqa: BLE001
+            return NOCONST_
+        return NOCONST_
+    if isinstance(e, ast.UnaryOp) and isinstance(e.op, ast.USub):
+        x = _fold(repo, module, cls, e.operand, fi, depth + 1)
+        return -x if isinstance(x, int) and not isinstance(x, bool) else NOCONST_
+    if isinstance(e, ast.Name):
+        if fi is not None and (is_param(fi, e.id) or local_defs(fi, e.id)):
+            d = single_def(fi, e.id) if not is_param(fi, e.id) else None
+            if d is not None and d[1] is None and not any(isinstance(n, (ast.Subscript, ast.Await, ast.Yield, ast.YieldFrom)) for n in ast.walk(d[0])):
+                return _fold(repo, module, cls, d[0], fi, depth + 1)
+            return NOCONST_
+        if fi is None and cls is not None and e.id in cls.attrs:
+            return _fold(repo, module, cls, cls.attrs[e.id], None, depth + 1)       # inside a class body: an earlier class constant
+        r = repo.resolve_name(module, e.id)
+        if isinstance(r, tuple) and r[0] == "const":
+            return _fold(repo, r[1], None, r[2], None, depth + 1)
+    return NOCONST_
 
 
 def _struct_format(repo, module, cls, e: ast.AST, fi: FuncInfo | None = None, depth: int = 0):
@@ -944,6 +1283,9 @@ class _Lengths(LengthAnalysis):
         v = super()._const(e)
         if v is not None or e is None or depth > 6:
             return v
+        v = _fold(self.repo, self.fi.module, self.fi.cls, e, self.fi)
+        if isinstance(v, int) and not isinstance(v, bool):
+            return v
         e = strip_cast(e)
         if isinstance(e, ast.Attribute) and e.attr == "size":
             f = _struct_format(self.repo, self.fi.module, self.fi.cls, e.value, self.fi)
@@ -1025,9 +1367,52 @@ class _Lengths(LengthAnalysis):
                         v, u = self.min_len(d[0], site)
                         if v > best:
                             best, used = v, u
+            if isinstance(e2, (ast.Name, ast.Attribute)) and chain(e2) is not None:
+                # asking forgiveness: a read of the same value that COMPLETED on every path to the site (its IndexError /
+                # struct.error went to a handler that does not come back here, or would have left the function) proves the
+                # length it needs - exactly the pre-check `len(x) >= n` it replaces
+                for need, why in self._completed_reads(chain(e2), site):
+                    if need > best:
+                        best, used = need, [why]
             return best, used
         finally:
             self._site = prev
+
+    _reads_cache = None
+    callee_ensures = None            # call -> {argument chain: length the callee's completion proves}  (set by rule_bounds)
+
+    def _completed_reads(self, key: str, site: ast.AST | None, site_nodes=None):
+        """(length, explanation) for every fixed-position read of `key` - here, or in a function called with `key` as an argument
+        - that has completed normally on every path from the entry to `site`, with `key` not rebound in between."""
+        sn = site_nodes if site_nodes is not None else self.cfg.nodes_for(site)
+        if not sn:
+            return
+        if self._reads_cache is None:
+            self._reads_cache = []          # (guards re-entry: index_sites/unpack_sites never ask for lengths)
+            found = [(n, chain(strip_cast(b)), need, f"`{norm(n)[:50]}` completed") for n, b, need in [*self.index_sites(), *self.unpack_sites()]]
+            if self.callee_ensures is not None:
+                for c in calls(self.fi):
+                    for k, need in (self.callee_ensures(c) or {}).items():
+                        found.append((c, k, need, f"`{norm(c)[:50]}` completed: it reads {need} bytes of {k} on every path to its end"))
+            self._reads_cache = found
+        kills = None
+        for node, k, need, why in self._reads_cache:
+            if k != key or node is site or need <= 0:
+                continue
+            rn = self.cfg.nodes_for(node)
+            if not rn or any(n in sn for n in rn) or len(rn) != 1 or rn[0].ast is None:
+                continue                       # same statement: the order of evaluation is not modelled
+            if not _evaluated_whenever(node, rn[0].ast):
+                continue
+            if not all(self.cfg.must_complete(s_, rn) for s_ in sn):
+                continue
+            if kills is None:
+                kills = self._kill_nodes(key)
+            if any(k_ in rn for k_ in kills):
+                continue
+            if any(s_ in self.cfg.reach([v for v, _ in k_.succ], cut_nodes=rn) for k_ in kills for s_ in sn):
+                continue                       # rebound after the read
+            yield need, why
 
     def _unchanged_since(self, defexpr: ast.AST, key: str) -> bool:
         """No statement that may change `key` lies on a path from the evaluation of defexpr to the current site."""
@@ -1089,6 +1474,33 @@ class _Lengths(LengthAnalysis):
         return m
 
 
+def _evaluated_whenever(x: ast.AST, top: ast.AST) -> bool:
+    """x is evaluated every time `top` (the statement / condition atom that contains it) completes normally: it does not sit in
+    a lazily evaluated position (arm of a conditional expression, right operand of and/or, later operand of a chained
+    comparison, comprehension, lambda) and not in the body of a compound statement."""
+    cur = x
+    while cur is not top:
+        p = parent(cur)
+        if p is None:
+            return False
+        if isinstance(p, ast.IfExp) and cur is not p.test:
+            return False
+        if isinstance(p, ast.BoolOp) and cur is not p.values[0]:
+            return False
+        if isinstance(p, ast.Compare) and len(p.comparators) > 1 and cur is not p.left and cur is not p.comparators[0]:
+            return False
+        if isinstance(p, (ast.ListComp, ast.SetComp, ast.DictComp, ast.GeneratorExp, ast.Lambda, ast.comprehension,
+                          ast.FunctionDef, ast.AsyncFunctionDef, ast.ClassDef)):
+            return False
+        if isinstance(p, ast.stmt) and p is not top:
+            return False
+        if isinstance(p, ast.stmt) and p is top and any(cur is b for f_ in ("body", "orelse", "finalbody", "handlers")
+                                                        for b in getattr(p, f_, []) or []):
+            return False
+        cur = p
+    return True
+
+
 _BUILTIN_METHOD_NAMES = frozenset(n for t in (dict, list, set, bytes, str, tuple, bytearray, int, object) for n in dir(t))
 
 
@@ -1109,26 +1521,70 @@ def _unique_method(repo, call: ast.Call) -> list[FuncInfo]:
     return list(ms) if len(ms) == 1 and not _is_abstract(ms[0]) else []
 
 
-def _handled(node: ast.AST, fi: FuncInfo, names: tuple[str, ...]) -> bool:
-    """node lies in the body of a try with a handler for one of the exception classes `names` (or a catch-all)."""
+def _exc_names(fi: FuncInfo, e: ast.AST | None, depth: int = 0) -> set[str]:
+    """
+    The exception classes a handler type expression denotes, by their canonical names: a name imported under another spelling
+    (`from struct import error as StructError`, `import struct as st; st.error`) is the class it was imported as, a module
+    constant / single-assignment local that holds a class or a tuple of classes (`_SHORT = (IndexError, struct.error)`) is that
+    tuple.  Names that cannot be resolved are returned as written (they then match nothing the rules ask for).
+    """
+    if e is None or depth > 4:
+        return set()
+    e = strip_cast(e)
+    if isinstance(e, (ast.Tuple, ast.List)):
+        out: set[str] = set()
+        for x in e.elts:
+            out |= _exc_names(fi, x, depth + 1)
+        return out
+    c = chain(e)
+    if c is None:
+        return set()
+    mod = fi.module
+    head, _, rest = c.partition(".")
+    if isinstance(e, ast.Name):
+        if not is_param(fi, e.id) and local_defs(fi, e.id):
+            d = single_def(fi, e.id)
+            return _exc_names(fi, d[0], depth + 1) if d is not None and d[1] is None else {c}
+        if e.id in mod.constants:
+            return _exc_names(fi, mod.constants[e.id], depth + 1)
+    imp = mod.imports.get(head)
+    if imp is not None:
+        m, a = imp
+        full = ".".join(x for x in (m, a, rest) if x)
+        if full.startswith("builtins."):
+            full = full[len("builtins."):]
+        return {full}
+    return {c}
+
+
+def _handlers_around(node: ast.AST, fi: FuncInfo):
+    """the exception classes (canonical names; "*" for a catch-all) for which `node` lies in the BODY of a try / suppress"""
+    out: set[str] = set()
     cur = node
     p = parent(cur)
     while p is not None and cur is not fi.node:
         if isinstance(p, ast.Try) and any(cur is s_ for s_ in p.body):
             for h in p.handlers:
                 if _catches_all(h):
-                    return True
-                t = h.type
-                if any(chain(e) in names for e in (t.elts if isinstance(t, ast.Tuple) else [t])):
-                    return True
+                    out.add("*")
+                else:
+                    out |= _exc_names(fi, h.type)
         if isinstance(p, (ast.With, ast.AsyncWith)) and any(cur is s_ for s_ in p.body):
             for it in p.items:
                 ce = it.context_expr
-                if isinstance(ce, ast.Call) and chain(ce.func) in ("suppress", "contextlib.suppress") \
-                        and any(chain(a) in names + ("Exception", "BaseException") for a in ce.args):
-                    return True
+                if isinstance(ce, ast.Call) and chain(ce.func) in ("suppress", "contextlib.suppress"):
+                    for a in ce.args:
+                        ns = _exc_names(fi, a)
+                        out |= {"*"} if ns & {"Exception", "BaseException"} else ns
         cur, p = p, parent(p)
-    return False
+    return out
+
+
+def _handled(node: ast.AST, fi: FuncInfo, names: tuple[str, ...], inherited=()) -> bool:
+    """node lies in the body of a try with a handler for one of the exception classes `names` (or a catch-all); `inherited`:
+    the classes every call site of fi (transitively) handles - an exception that leaves fi is caught there."""
+    got = _handlers_around(node, fi) | set(inherited)
+    return "*" in got or bool(got & set(names))
 
 
 def _removal_sites(fi: FuncInfo):
@@ -1157,19 +1613,16 @@ def _same_container(fi: FuncInfo, a: ast.AST, b: ast.AST) -> bool:
     return False
 
 
-def _check_removals(ctx: Ctx, fi: FuncInfo, cfg, via: str) -> None:
+def _check_removals(ctx: Ctx, fi: FuncInfo, cfg, via: str, inherited=()) -> None:
     sites = list(_removal_sites(fi))
     for c in calls(fi):
         if isinstance(c.func, ast.Attribute) and c.func.attr == "pop" and len(c.args) == 2 and not protected(c, fi) \
                 and (chain(c.func.value) or "").startswith("self."):
-            ctx.instances = [i for i in ctx.instances if not (i["rule"].endswith("removal-guarded") and i["at"] == fi.where and i["line"] == c.lineno)]
             ctx.instance("removal-guarded", fi.where, f"`{norm(c)[:60]}` has a default: an absent key does not raise", line=c.lineno)
     for node, cont, key, excs in sites:
         if protected(node, fi):
             continue
-        ctx.instances = [i for i in ctx.instances if not (i["rule"].endswith("removal-guarded") and i["at"] == fi.where and i["line"] == node.lineno)]
-        ctx.findings = [f for f in ctx.findings if not (f.rule.endswith("removal-guarded") and f.at == fi.where and f.construct == norm(node))]
-        if _handled(node, fi, excs):
+        if _handled(node, fi, excs, inherited):
             ctx.instance("removal-guarded", fi.where, f"`{norm(node)[:60]}` inside a handler for {excs[0]}", line=node.lineno)
             continue
         guard = None
@@ -1198,6 +1651,66 @@ def _check_removals(ctx: Ctx, fi: FuncInfo, cfg, via: str) -> None:
                   [str(guard)] if guard is not None else None)
 
 
+def _callee_ensures(ctx: Ctx, la: "_Lengths", fi: FuncInfo, call: ast.Call, depth: int = 0) -> dict:
+    """{chain of a bytes argument of `call`: n}: whichever function the call invokes reads the first n bytes of the parameter
+    bound to that argument (constant index / fixed-format unpack) on every path to its normal end without rebinding it - so when the
+    call completes, the argument is at least n bytes long (a decoder used as its own length check: `try: x = T.from_bin(data)` /
+    `except struct.error: return`)."""
+    repo = ctx.repo
+    if call_name(call) in ("len", "isinstance", "cast", "bytes", "int", "str", "print"):
+        return {}
+    targets = [t for t in repo.resolve_call(fi, call) if not _is_abstract(t)]
+    if not targets or len(targets) > 3:
+        return {}
+    out = None
+    for t in targets:
+        if t.node is fi.node or t.is_async or any(isinstance(n, (ast.Yield, ast.YieldFrom)) for n in walk_no_nested(t.node)):
+            return {}
+        m = _bind_args(t, call)
+        if m is None:
+            return {}
+        mine: dict[str, int] = {}
+        for p, a in m.items():
+            a2 = strip_cast(a)
+            if not isinstance(a2, (ast.Name, ast.Attribute)) or chain(a2) is None or p in ("self", "cls") or not la.typer.is_bytes(a2):
+                continue
+            need = _read_on_completion(ctx, t, p, depth)
+            if need:
+                mine[chain(a2)] = max(mine.get(chain(a2), 0), need)
+        out = mine if out is None else {k: min(v, mine[k]) for k, v in out.items() if k in mine}
+    return out or {}
+
+
+def _read_on_completion(ctx: Ctx, t: FuncInfo, p: str, depth: int) -> int:
+    cache = ctx.__dict__.setdefault("_c03_read_on_completion", {})
+    key = (t, p)
+    if key in cache:
+        return cache[key]
+    cache[key] = 0                       # recursion guard
+    best = 0
+    if not local_defs(t, p) and depth <= 2:
+        cfg = ctx.cfg(t)
+        lt = _Lengths(ctx.repo, t, cfg, {})
+        lt.typer = _FlowTyper(ctx.repo, t, {p})
+        lt.callee_ensures = (lambda c: _callee_ensures(ctx, lt, t, c, depth + 1)) if depth < 2 else None
+        for need, _ in lt._completed_reads(p, None, [cfg.exit]):
+            best = max(best, need)
+    cache[key] = best
+    return best
+
+
+def _consumed_on_the_spot(call: ast.Call) -> bool:
+    """the generator / coroutine object `call` creates is run to its end (or awaited) right where it is created"""
+    p = parent(call)
+    if isinstance(p, (ast.Await, ast.YieldFrom)):
+        return True
+    if isinstance(p, (ast.For, ast.AsyncFor)) and p.iter is call:
+        return True
+    if isinstance(p, ast.comprehension) and p.iter is call and not isinstance(parent(p), ast.GeneratorExp):
+        return True
+    return isinstance(p, ast.Call) and chain(p.func) in ("list", "tuple", "set", "sorted", "bytes", "b''.join") and call in p.args
+
+
 def rule_bounds(ctx: Ctx) -> None:
     repo = ctx.repo
     entries = entry_functions(ctx)
@@ -1206,9 +1719,42 @@ def rule_bounds(ctx: Ctx) -> None:
     param_min: dict[FuncInfo, dict[str, int]] = {e: {} for e in entries}
     depth: dict[FuncInfo, int] = {e: 0 for e in entries}
     via: dict[FuncInfo, str] = {e: "entry" for e in entries}
-    todo = list(entries)
+    # exception classes that EVERY unprotected call site through which a function is reached handles (in the caller or further
+    # up): an exception of such a class that leaves the function is caught before it can reach the transport
+    caught: dict[FuncInfo, set[str]] = {e: set() for e in entries}
+    made: dict[FuncInfo, tuple[list, list]] = {}
+    inner_targets: dict[int, list[FuncInfo]] = {}          # id(call of `func` in a decorator's wrapper) -> what it runs
+    analysed: set = set()
+    todo: list = []
+
+    def route(t: FuncInfo) -> FuncInfo:
+        """the function a call of t runs first: t itself, or the outermost wrapper of its decorators (whose calls of `func` are
+        recorded as running the next layer / t)"""
+        layers = _wrap_layers(repo, t)
+        if not layers:
+            return t
+        for i, (w, inner) in enumerate(layers):
+            nxt = layers[i + 1][0] if i + 1 < len(layers) else t
+            for c in inner:
+                if nxt not in inner_targets.setdefault(id(c), []):
+                    inner_targets[id(c)].append(nxt)
+                    if w in analysed and w not in todo:
+                        todo.append(w)
+        return layers[0][0]
+
+    for e in entries:
+        w0 = route(e)
+        if w0 is not e:
+            # a decorated entry point: the transport calls the wrapper, the body is reached through the wrapper's call of `func`
+            for tbl in (param_min, depth, via, caught):
+                tbl.pop(e, None)
+            param_min.setdefault(w0, {})
+            depth.setdefault(w0, 0)
+            via.setdefault(w0, "entry")
+            caught.setdefault(w0, set())
+        if w0 not in todo:
+            todo.append(w0)
     n_sites = 0
-    analysed = set()
     rounds = 0
     while todo:
         rounds += 1
@@ -1219,7 +1765,15 @@ def rule_bounds(ctx: Ctx) -> None:
         la = _Lengths(repo, fi, cfg, param_min[fi])
         la.decisions = _decisions(ctx)
         la.typer = _FlowTyper(repo, fi, set(param_min[fi]))
+        la.callee_ensures = lambda c, la=la, fi=fi: _callee_ensures(ctx, la, fi, c)
         analysed.add(fi)
+        # a function that is analysed again (a further call site lowered what its callers guarantee) replaces what its previous
+        # analysis recorded - all of it, by identity: two reads with the same text are two instances
+        prev_i, prev_f = made.pop(fi, ([], []))
+        if prev_i or prev_f:
+            ctx.instances = [i for i in ctx.instances if not any(i is x for x in prev_i)]
+            ctx.findings = [f for f in ctx.findings if not any(f is x for x in prev_f)]
+        before_i, before_f = {id(i) for i in ctx.instances}, {id(f) for f in ctx.findings}
         # 1. local sites
         for node, base, need in [*la.index_sites(), *la.unpack_sites()]:
             if protected(node, fi):
@@ -1228,14 +1782,12 @@ def rule_bounds(ctx: Ctx) -> None:
             ok = have >= need
             if not ok:
                 # asking forgiveness instead of permission: the read sits under a handler for exactly the exception a short value raises
-                excs = ("struct.error", "error") if isinstance(node, ast.Call) and call_name(node) == "unpack_from" else ("IndexError", "LookupError")
+                excs = ("struct.error",) if isinstance(node, ast.Call) and call_name(node) == "unpack_from" else ("IndexError", "LookupError")
                 if _handled(node, fi, excs):
                     ok, used = True, [f"inside a handler for {excs[0]}"]
+                elif _handled(node, fi, excs, caught[fi]):
+                    ok, used = True, [f"every call that reaches {fi.qualname} lies inside a handler for {excs[0]} (via {via[fi]})"]
             n_sites += 1
-            ctx.instances = [i for i in ctx.instances if not (i["rule"].endswith("bounds-before-index")
-                                                              and i["at"] == fi.where and i["instance"].startswith(norm(node) + " "))]
-            ctx.findings = [f for f in ctx.findings if not (f.rule.endswith("bounds-before-index") and f.at == fi.where
-                                                            and f.construct == norm(node))]
             ctx.check(ok, "bounds-before-index", fi, node,
                       f"{norm(node)} needs len({norm(base)}) >= {need}; established >= {have} (reached via {via[fi]})",
                       f"read of `{norm(node)}` on the unprotected receive path (reached via {via[fi]}) needs "
@@ -1257,7 +1809,8 @@ def rule_bounds(ctx: Ctx) -> None:
             elif call_name(call) in FOREIGN_CALLS:
                 ctx.instance("bounds-before-index", fi.where, f"foreign call {norm(call.func)} contained by a catch-all handler", line=call.lineno)
         # 1c. removals by key from a table (raise KeyError / ValueError when the key is absent)
-        _check_removals(ctx, fi, cfg, via[fi])
+        _check_removals(ctx, fi, cfg, via[fi], caught[fi])
+        made[fi] = ([i for i in ctx.instances if id(i) not in before_i], [f for f in ctx.findings if id(f) not in before_f])
         # 2. calls out of unprotected statements
         if depth[fi] >= 6:
             continue
@@ -1275,12 +1828,36 @@ def rule_bounds(ctx: Ctx) -> None:
             later = built.lookup("__call__") if built is not None else None
             if later is not None and not _is_abstract(later):
                 targets = [*targets, later]
+            # a decorated function denotes the wrapper its decorator returns: the call runs the (outermost) wrapper, and the wrapper's
+            # call of `func` runs the next layer / the decorated body with the wrapper's arguments
+            explicit_self = False
+            if id(call) in inner_targets:
+                targets, explicit_self = list(inner_targets[id(call)]), True
+            routed = []
+            bound_method: set = set()
+            for t in targets:
+                w0 = route(t) if t is not later and not explicit_self else t
+                routed.append(w0)
+                if w0 is not t and t.cls is not None and "staticmethod" not in t.decorator_names() and not explicit_self:
+                    bound_method.add(w0)
+            targets = routed
+            here = None
             for t in targets:
                 if t.node is fi.node or t.name in ("__init__",):
                     continue
+                # the handlers this call sits under catch what the callee lets out - when the callee's body runs at the call (a
+                # generator / coroutine body runs where it is iterated / awaited: only then when that happens on the spot)
+                if here is None:
+                    here = (_handlers_around(call, fi) - {"*"}) | caught[fi]
+                lazy = t.is_async or any(isinstance(n, (ast.Yield, ast.YieldFrom)) for n in walk_no_nested(t.node, include_root_defs=False))
+                site_caught = here if not lazy or _consumed_on_the_spot(call) else set()
                 # map bytes-typed args to callee params
                 tparams = t.params()
                 shift = 1 if t.cls is not None and tparams and tparams[0] in ("self", "cls") else 0
+                if explicit_self:
+                    shift = 0                      # func(self, a, b): the receiver is written out
+                elif t in bound_method:
+                    shift = 1                      # obj.method(a, b) where method is a wrapper(self, a, b)
                 newmin = {}
                 for i, a in enumerate(call.args if t is not later else []):
                     if isinstance(a, ast.Starred):
@@ -1296,6 +1873,7 @@ def rule_bounds(ctx: Ctx) -> None:
                 old = param_min.get(t)
                 if old is None:
                     param_min[t] = dict(newmin)
+                    caught[t] = set(site_caught)
                     depth[t] = depth[fi] + 1
                     via[t] = f"{via[fi]} -> {fi.qualname}" if via[fi] != "entry" else fi.qualname
                     todo.append(t)
@@ -1306,6 +1884,9 @@ def rule_bounds(ctx: Ctx) -> None:
                         if v != old[p]:
                             old[p] = v
                             changed = True
+                    if not caught[t] <= site_caught:
+                        caught[t] &= site_caught
+                        changed = True
                     if changed and t not in todo:
                         todo.append(t)
     ctx.extra["unprotected_region_functions"] = sorted(f.where for f in analysed)
@@ -1488,7 +2069,15 @@ def rule_dispatch(ctx: Ctx) -> None:
         for g in region:
             if g is not fi and g.name == "register_anonymous_task":
                 continue
-            for c in calls(g, "self.register_anonymous_task"):
+            regs = list(calls(g, "self.register_anonymous_task"))
+            if g is not fi:
+                # in a helper that takes the overlay as an argument: `overlay.register_anonymous_task(...)`
+                for c in calls(g, "register_anonymous_task"):
+                    if c not in regs and isinstance(c.func, ast.Attribute) and isinstance(c.func.value, ast.Name) and is_param(g, c.func.value.id):
+                        ups = _in_root_terms(g, c.func.value, fi, sites)
+                        if ups and all(chain(resolve(fi, u)) == "self" for u in ups):
+                            regs.append(c)
+            for c in regs:
                 ig = arg(c, None, "ignore")
                 ig = resolve(g, ig) if ig is not None else None
                 if isinstance(ig, (ast.Name, ast.Attribute)):
@@ -1500,13 +2089,16 @@ def rule_dispatch(ctx: Ctx) -> None:
                           "exceptions of coroutine handlers are not ignored by the task manager")
     # _prefix is 22 bytes: b"\x00" + version(1) + community_id(20)  (C03 relies on the comparison length)
     init = repo.method("Community", "__init__", "ipv8/community.py")
-    st = [s for s, t in _stores(init, "self._prefix")]
+    st = [(s, init, s.value) for s, t in _stores(init, "self._prefix")]
+    if not st:
+        # the stored attribute became a read-only view: `_prefix` is a property over another attribute / a small state holder
+        st = _property_view_values(repo, init, "_prefix")
     ctx.anchor(st, "self._prefix assignment")
-    for s in st:
-        parts = _concat_parts(init, s.value, repo)
+    for s, owner, value in st:
+        parts = _concat_parts(owner, value, repo)
         ok = len(parts) == 3 and isinstance(parts[0], ast.Constant) and parts[0].value == b"\x00" \
             and chain(parts[1]) == "self.version" and chain(parts[2]) == "self.community_id"
-        ctx.check(ok, "prefix-before-dispatch", init, s, "prefix = 0x00 + version + community_id",
+        ctx.check(ok, "prefix-before-dispatch", owner, s, "prefix = 0x00 + version + community_id",
                   "the overlay prefix is no longer the 22-byte 0x00|version|community_id")
     # Endpoint.notify_listeners selects by prefix map
     nl = repo.method("Endpoint", "notify_listeners", "ipv8/messaging/interfaces/endpoint.py")
@@ -1529,6 +2121,14 @@ def rule_dispatch(ctx: Ctx) -> None:
         for l in walk_no_nested(g.node):
             if isinstance(l, (ast.For, ast.AsyncFor, ast.comprehension)):
                 loops.append((g, l, _value_leaves(repo, g, l.iter, nregion)))
+            elif isinstance(l, ast.Subscript) and isinstance(l.ctx, ast.Load) and not isinstance(l.slice, ast.Slice) \
+                    and const_value(l.slice) is NOCONST_ and isinstance(strip_cast(l.value), ast.Name) and local_defs(g, strip_cast(l.value).id) \
+                    and any(isinstance(a, ast.While) for a in _ancestors_until(l, g.node)):
+                # the same walk written with an explicit index: `while i < len(xs): ... xs[i] ...; i += 1` takes its items from xs
+                loops.append((g, l, _value_leaves(repo, g, l.value, nregion)))
+            elif isinstance(l, ast.Call) and chain(l.func) == "next" and l.args and not isinstance(l.args[0], ast.Starred):
+                # ... or with an explicit iterator: `it = iter(xs)` ... `next(it)` takes its items from xs
+                loops.append((g, l, _value_leaves(repo, g, l.args[0], nregion)))
 
     def kind_of(h: FuncInfo, e) -> str:
         if e is None:
@@ -1579,9 +2179,15 @@ def _value_leaves(repo, fi: FuncInfo, e: ast.AST, region: list, seen: set | None
     e = strip_cast(e)
     if depth > 8:
         return [(fi, None)]
-    if isinstance(e, ast.Call) and chain(e.func) in ("list", "tuple", "iter") and len(e.args) == 1 and not e.keywords \
-            and not isinstance(e.args[0], ast.Starred):
+    if isinstance(e, ast.Call) and chain(e.func) in ("list", "tuple", "iter", "reversed", "sorted", "set", "frozenset", "enumerate") and e.args \
+            and len(e.args) <= (2 if chain(e.func) in ("enumerate", "iter") else 1) and not isinstance(e.args[0], ast.Starred) \
+            and (chain(e.func) == "sorted" or not e.keywords) and not (chain(e.func) == "iter" and len(e.args) == 2):
+        # a copy / another order / (index, item) pairs of the same items
         return _value_leaves(repo, fi, e.args[0], region, seen, depth + 1)
+    if isinstance(e, ast.Call) and isinstance(e.func, ast.Attribute) and e.func.attr == "copy" and not e.args and not e.keywords:
+        return _value_leaves(repo, fi, e.func.value, region, seen, depth + 1)
+    if isinstance(e, ast.Subscript) and isinstance(e.slice, ast.Slice) and e.slice.lower is None and e.slice.upper is None and e.slice.step is None:
+        return _value_leaves(repo, fi, e.value, region, seen, depth + 1)              # xs[:]
     if isinstance(e, ast.IfExp):
         return _value_leaves(repo, fi, e.body, region, seen, depth + 1) + _value_leaves(repo, fi, e.orelse, region, seen, depth + 1)
     if isinstance(e, ast.BoolOp):
@@ -1769,11 +2375,11 @@ def _is_prefix_fact(repo, fi: FuncInfo, f) -> bool:
         if b is None:
             return False
         lo, up = b
-        if lo is not None and repo.resolve_const(fi.module, lo, fi.cls) != 0:
+        if lo is not None and _fold(repo, fi.module, fi.cls, lo, fi) != 0:
             return False
         if up is None or not _is_bytes_expr(repo, fi, e.value):
             return False
-        if repo.resolve_const(fi.module, up, fi.cls) == 22:
+        if _fold(repo, fi.module, fi.cls, up, fi) == 22:
             return True
         # as many bytes as the prefix has (the same predicate as startswith: the prefix is checked to be the 22-byte one)
         u = resolve(fi, up)
@@ -1841,6 +2447,66 @@ def _concat_parts(fi: FuncInfo, v: ast.AST, repo=None, depth: int = 0) -> list[a
         if isinstance(n_, int) and not isinstance(n_, bool) and 0 < n_ <= 64:
             return [ast.copy_location(ast.Constant(value=bytes(n_)), v)]                                   # bytes(1) == b"\x00"
     return [v]
+
+
+def _property_view_values(repo, init: FuncInfo, attr: str, depth: int = 0) -> list:
+    """
+    [(statement, function whose names the value is written in, value expression)] for an attribute of init's class that is no
+    longer stored but exposed by a read-only property:
+      - `return <expression over self>`                 -> that expression (computed on every read),
+      - `return self.<other>`                            -> every value __init__ stores into self.<other>,
+      - `return self.<holder>.<field>` with `self.<holder> = Holder(args)` in __init__ -> what Holder's constructor stores into
+        <field>, with the constructor's parameters replaced by the arguments (a NamedTuple / dataclass field: the argument itself).
+    [] when the shape is not one of these (the caller then reports the lost anchor).
+    """
+    k = init.cls
+    if k is None or depth > 2:
+        return []
+    getter = k.lookup(attr)
+    if getter is None or not any(d.split(".")[-1] in ("property", "cached_property") for d in getter.decorator_names()):
+        return []
+    rets = [r for r in walk_no_nested(getter.node) if isinstance(r, ast.Return)]
+    if len(rets) != 1 or rets[0].value is None:
+        return []
+    v = resolve(getter, rets[0].value)
+    c = chain(v)
+    segs = c.split(".") if c is not None and isinstance(v, ast.Attribute) else []
+    if len(segs) == 2 and segs[0] == "self":
+        out = [(s_, init, s_.value) for s_, _ in _stores(init, c)]
+        return out or _property_view_values(repo, init, segs[1], depth + 1)
+    if len(segs) == 3 and segs[0] == "self":
+        out = []
+        for s_, _ in _stores(init, f"self.{segs[1]}"):
+            built = resolve(init, s_.value)
+            rec = _record_of(repo, init.module, built)
+            part = _record_part(rec, ("attr", segs[2])) if rec is not None else None
+            if part is not None:
+                out.append((s_, init, part))
+                continue
+            hk = repo.resolve_class_expr(init.module, built.func) if isinstance(built, ast.Call) else None
+            hinit = hk.lookup("__init__") if hk is not None else None
+            if hinit is None or any(isinstance(a, ast.Starred) for a in built.args) or any(kw.arg is None for kw in built.keywords):
+                return []
+            a = hinit.node.args
+            names = [p.arg for p in a.posonlyargs + a.args][1:]
+            if len(built.args) > len(names):
+                return []
+            mapping = dict(zip(names, built.args))
+            mapping.update({kw.arg: kw.value for kw in built.keywords})
+            pos = (a.posonlyargs + a.args)
+            for p_, d_ in zip(pos[len(pos) - len(a.defaults):], a.defaults):
+                mapping.setdefault(p_.arg, d_)
+            vals = [x for x, _ in _stores(hinit, f"self.{segs[2]}")]
+            if len(vals) != 1:
+                return []
+            te = _translate_expr(hinit, vals[0].value, mapping)
+            if te is None:
+                return []
+            out.append((s_, init, te))
+        return out
+    if c is None or not isinstance(v, (ast.Attribute, ast.Name)):
+        return [(rets[0], getter, rets[0].value)]
+    return []
 
 
 def _is_packet_data(fi: FuncInfo, e: ast.AST, pkt: str, depth: int = 0) -> bool:
@@ -2164,6 +2830,126 @@ def rule_length_honoured(ctx: Ctx) -> None:
                                   f"{c.name}.unpack hands a wire-supplied length to {t.qualname}, which slices `{norm(sl)}` without it ever being "
                                   "compared with the buffer length: a truncated message is silently accepted and the returned offset lies outside the buffer")
     ctx.floor("length-honoured", n, 4)
+
+
+def _innermost_loop(n: ast.AST, stop: ast.AST):
+    for a in _ancestors_until(n, stop):
+        if isinstance(a, (ast.For, ast.AsyncFor, ast.While)):
+            return a
+    return None
+
+
+def _count_loops(repo, fi: FuncInfo, wire: set[str]):
+    """
+    (loop, names that describe the count) for every loop of fi that runs once per ANNOUNCED item: a `for` over `range(<count>)` /
+    `repeat(x, <count>)` (also wrapped in enumerate / reversed) whose count is read from the wire, and a `while` whose test compares
+    a counter (a local that only ever holds a constant, the count, or itself plus/minus a constant) with the wire-supplied count, or
+    tests such a count-down counter for truth.
+    """
+    def counter(name: str) -> bool:
+        defs = local_defs(fi, name)
+        if not defs or is_param(fi, name):
+            return False
+        for st, v, idx in defs:
+            if isinstance(st, ast.AugAssign):
+                if not isinstance(st.op, (ast.Add, ast.Sub)) or const_value(st.value) is NOCONST_:
+                    return False
+                continue
+            if v is None or idx is not None:
+                return False
+            v = strip_cast(v)
+            if const_value(v) is not NOCONST_:
+                continue
+            if isinstance(v, ast.BinOp) and isinstance(v.op, (ast.Add, ast.Sub)) and chain(v.left) == name and const_value(v.right) is not NOCONST_:
+                continue
+            if names_in(v) and names_in(v) <= wire | {"len", "int"} and not any(isinstance(x, ast.Call) and chain(x.func) not in ("int",) for x in ast.walk(v)):
+                continue
+            return False
+        return True
+
+    for l in walk_no_nested(fi.node):
+        if isinstance(l, (ast.For, ast.AsyncFor)):
+            it = strip_cast(l.iter)
+            while isinstance(it, ast.Call) and chain(it.func) in ("enumerate", "reversed", "iter") and it.args:
+                it = strip_cast(it.args[0])
+            if isinstance(it, ast.Call) and (chain(it.func) or "").split(".")[-1] in ("range", "repeat") and not it.keywords:
+                cnt = [a for a in (it.args if chain(it.func) == "range" else it.args[1:]) if names_in(a) & wire]
+                if cnt:
+                    yield l, set().union(*(names_in(a) for a in it.args)) | names_in(l.target)
+        elif isinstance(l, ast.While):
+            atoms = [f for f in _atoms_with_polarity(l.test, True)] or []
+            hit = False
+            for f in atoms:
+                sides = [x for x in (f.left, f.right) if x is not None]
+                ns = set().union(*(names_in(x) for x in sides)) if sides else set()
+                cs = {n for n in ns if counter(n)}
+                if cs and (ns - cs) <= wire and ((ns - cs) & wire or any(
+                        names_in(strip_cast(v)) & wire for c_ in cs for _, v, _ in local_defs(fi, c_) if v is not None)):
+                    hit = True
+            if hit:
+                allowed = {n for n in names_in(l.test) if counter(n)} | (names_in(l.test) & wire)
+                yield l, allowed
+            elif const_value(l.test) not in (NOCONST_, False, 0, None) and not l.orelse:
+                # `while True:` left by `if <counter reached the count>: break`: the same loop with the test moved into the body
+                for x in walk_no_nested(l):
+                    if isinstance(x, ast.If) and _innermost_loop(x, fi.node) is l and any(isinstance(b, ast.Break) for b in x.body):
+                        ns = names_in(x.test)
+                        cs = {n for n in ns if counter(n)}
+                        if cs and (ns - cs) and (ns - cs) <= wire:
+                            yield l, ns
+                            break
+
+
+def rule_count_honoured(ctx: Ctx) -> None:
+    """
+    A count prefix is honoured: a loop of a Packer's unpack that decodes one item per announced item ends normally only when the
+    announced number of items has been decoded.  Every other way out of the loop that is not an exception (a `break` / `return`
+    in the body, a further condition in a `while` test) may only depend on the count and the counter - an exit that depends on
+    anything else (the read position, the buffer length, what was decoded) lets a message whose count announces more items than
+    it carries be accepted as a shorter list: "a truncated message is never silently accepted" is lost.
+    """
+    repo = ctx.repo
+    dec = _decisions(ctx)
+    for c in sorted(packer_classes(ctx), key=lambda c: c.name):
+        fi = c.methods.get("unpack")
+        if fi is None:
+            continue
+        params = fi.params()
+        if len(params) < 3:
+            continue
+        data = params[1]
+        wire = _wire_locals(repo, fi, data, keep=(params[2],))
+        if not wire:
+            continue
+        cfg = ctx.cfg(fi)
+        for loop, allowed in _count_loops(repo, fi, wire):
+            allowed = (set(allowed) | {"range", "len", "int"}) - {data, params[2]}
+            bad: list[str] = []
+            if isinstance(loop, ast.While):
+                extra = names_in(loop.test) - allowed
+                if extra:
+                    bad.append(f"the loop test also depends on {', '.join(sorted(extra))}")
+            at_head = {_fact_key(f) for f in dec.facts(fi, cfg, loop)}
+            for x in walk_no_nested(loop):
+                if x is loop or not isinstance(x, (ast.Break, ast.Return)):
+                    continue
+                if isinstance(x, ast.Break) and _innermost_loop(x, fi.node) is not loop:
+                    continue
+                if not any(x is y or any(a is y for a in _ancestors_until(x, loop)) for y in loop.body):
+                    continue                    # the else-branch of the loop runs after exhaustion
+                xn = cfg.nodes_for(x)
+                if not xn or not any(cfg.reachable(n_) for n_ in xn):
+                    continue
+                new = [f for f in dec.facts(fi, cfg, x) if _fact_key(f) not in at_head]
+                others = sorted({n_ for f in new for n_ in _fact_names(f)} - allowed)
+                if others or not new:
+                    kind = "break" if isinstance(x, ast.Break) else "return"
+                    bad.append(f"`{kind}` at line {x.lineno} leaves the loop " + (f"depending on {', '.join(others)}" if others else "unconditionally"))
+            ctx.check(not bad, "count-honoured", fi, loop,
+                      f"{c.name}.unpack: the loop over the announced item count ends normally only when the count is exhausted",
+                      f"{c.name}.unpack decodes one item per announced item in `{head(loop)[:60]}`, but {'; '.join(bad)}: a message whose "
+                      "count prefix announces more items than it carries is accepted as a shorter list instead of being rejected - a "
+                      "truncated message is silently accepted")
 
 
 def _record_run(base):
@@ -2777,11 +3563,15 @@ def _self_call_region(repo, root: FuncInfo, stop: set[str]):
             else:
                 ts = [t for t in _callable_targets(repo, g, c) if t.name not in stop and t.name != root.name]
                 if not ts and isinstance(f, ast.Name) and not local_defs(g, f.id) and not is_param(g, f.id):
-                    # a plain function of root's own module the work was handed to (`_run(self, handler, ...)`)
-                    ts = [t for t in repo.resolve_call(g, c) if t.cls is None and t.module is root.module and t.name not in stop
-                          and parent(t.node) is t.module.tree]
+                    # a plain function of the library the work was handed to (`_run(self, handler, ...)`): in root's own module or
+                    # imported from another one (a helper that moved to a private module)
+                    ts = [t for t in repo.resolve_call(g, c) if t.cls is None and t.name not in stop and parent(t.node) is t.module.tree]
+                elif not ts and isinstance(f, ast.Attribute) and isinstance(f.value, ast.Name) and not local_defs(g, f.value.id) \
+                        and not is_param(g, f.value.id) and f.value.id in g.module.imports:
+                    # the same through the module object: `_dispatch.run(self, handler, ...)`
+                    ts = [t for t in repo.resolve_call(g, c) if t.cls is None and t.name not in stop and parent(t.node) is t.module.tree]
             for t in ts:
-                if t is root or (t.cls is None and t.module is not root.module) or (t.cls is not None and id(t.cls) not in mro):
+                if t is root or (t.cls is not None and id(t.cls) not in mro):
                     continue
                 sites.setdefault(t, []).append((g, c))
                 if t not in region and len(region) < 8:
@@ -3077,6 +3867,33 @@ def rule_listener_lists(ctx: Ctx) -> None:
     ctx.instance("handler-contained", ep.where, f"{n} in-place removals from listener lists (delivery iterates a copy: {copies})", nontrivial=False)
 
 
+def rule_lock_released(ctx: Ctx) -> None:
+    """An explicitly acquired lock is released on EVERY way out of the function, exceptional ones included.  A handler body may raise (on_packet
+    contains it), but a lock it leaves held makes the NEXT datagram that needs the lock block the receive path forever - "handing bytes to a
+    node returns normally" fails for a later datagram.  `with lock:` needs no obligation (the interpreter releases); `lock.acquire()` written as a
+    call does."""
+    n = 0
+    for fi in ctx.repo.all_functions():
+        for c in calls(fi):
+            if call_name(c) != "acquire" or not isinstance(c.func, ast.Attribute):
+                continue
+            lock = chain(c.func.value)
+            if lock is None:
+                continue
+            n += 1
+            cfg = ctx.cfg(fi)
+            releases = [nd for r in calls(fi) if call_name(r) == "release" and isinstance(r.func, ast.Attribute) and chain(r.func.value) == lock
+                        for nd in cfg.nodes_for(r)]
+            starts = cfg.nodes_for(c)
+            ok = bool(starts) and all(cfg.always_followed_by(s_, releases, exits=[cfg.exit, cfg.raise_exit], normal_only=False) for s_ in starts)
+            ctx.check(ok, "lock-released", fi, c, f"`{lock}` acquired by call is released on every normal and exceptional way out of {fi.qualname}",
+                      f"{fi.qualname} acquires `{lock}` with an explicit call and a statement between the acquire and the release can raise (or a path "
+                      "returns) without releasing it: the exception is contained by on_packet, but the lock stays held and the next datagram whose "
+                      "handler needs it blocks the thread that delivers datagrams forever (use `with` or try/finally)")
+    ctx.instance("lock-released", "ipv8/**", f"{n} explicit lock.acquire() calls in the library (locks taken with `with` are released by the interpreter)",
+                 nontrivial=False)
+
+
 _FAMILY_ARITY = {"AF_INET": 2, "AF_INET6": 4}
 
 
@@ -3238,11 +4055,14 @@ def rule_address_arity(ctx: Ctx) -> None:
 
 
 def run(ctx: Ctx) -> None:
+    _REPO_BOX[0] = ctx.repo
     rule_address_arity(ctx)
     rule_listener_lists(ctx)
+    rule_lock_released(ctx)
     rule_bounds(ctx)
     rule_dispatch(ctx)
     rule_length_honoured(ctx)
+    rule_count_honoured(ctx)
     rule_consume_all(ctx)
     rule_snapshot(ctx)
     ctx.assume("exceptions raised inside handler bodies are contained by the try/except in on_packet (checked) - handler bodies themselves are not analysed")
@@ -3253,6 +4073,12 @@ def run(ctx: Ctx) -> None:
 
 _CR = "ipv8/messaging/anonymization/crypto.py"
 WITNESSES = [
+    {"name": "pre-fix: relativity-map lock taken by call, KeyError leaves it held", "file": "ipv8/attestation/wallet/bonehexact/attestation.py", "rule": "lock-released",
+     "old": "    with multithread_update_lock:\n        relativity_map[response] += 1\n",
+     "new": "    multithread_update_lock.acquire()\n    relativity_map[response] += 1\n    multithread_update_lock.release()\n"},
+    {"name": "lock released on the normal path only (early return keeps it)", "file": "ipv8/attestation/wallet/bonehexact/attestation.py", "rule": "lock-released",
+     "old": "    with multithread_update_lock:\n        relativity_map[response] += 1\n",
+     "new": "    multithread_update_lock.acquire()\n    if response not in relativity_map:\n        return\n    relativity_map[response] += 1\n    multithread_update_lock.release()\n"},
     {"name": "pre-fix: AEAD RuntimeError reaches the transport", "file": _CR, "rule": "bounds-before-index",
      "old": "                cell.message = hop.keys.decrypt_str(cell.message, direction)\n            except Exception as e:",
      "new": "                cell.message = hop.keys.decrypt_str(cell.message, direction)\n            except ValueError as e:"},
@@ -3312,6 +4138,21 @@ WITNESSES = [
     {"name": "Address domain branch drops port read", "file": "ipv8/messaging/serialization.py", "rule": "length-honoured",
      "old": "unpack_list.append(DomainAddress(host, unpack_from(\">H\", data, offset + 3 + length)[0]))",
      "new": "unpack_list.append(DomainAddress(host, 0))"},
+    {"name": "ListOf item loop stops at the end of the buffer", "file": "ipv8/messaging/serialization.py", "rule": "count-honoured",
+     "old": "        for _ in range(length):\n            offset = self.packer.unpack(data, offset, result, *args)\n",
+     "new": "        for _ in range(length):\n            if offset >= len(data):\n                break\n"
+            "            offset = self.packer.unpack(data, offset, result, *args)\n"},
+    {"name": "ListOf item loop with a second exit condition", "file": "ipv8/messaging/serialization.py", "rule": "count-honoured",
+     "old": "        for _ in range(length):\n            offset = self.packer.unpack(data, offset, result, *args)\n",
+     "new": "        index = 0\n        while index < length and offset < len(data):\n"
+            "            offset = self.packer.unpack(data, offset, result, *args)\n            index += 1\n"},
+    {"name": "second read with the same text after a handler that falls through", "file": "ipv8/community.py", "rule": "bounds-before-index",
+     "old": "        if self._prefix != data[:22] or len(data) < 23:\n            return\n        msg_id = data[22]\n",
+     "new": "        if self._prefix != data[:22]:\n            return\n        try:\n            msg_id = data[22]\n        except IndexError:\n"
+            "            msg_id = 0\n        msg_id = data[22]\n"},
+    {"name": "decoder used as length check but the wrong exception is caught", "file": _CR, "rule": "bounds-before-index",
+     "old": "        if len(data) < 29:\n            self.logger.debug(\"Dropping truncated cell from %s\", source_address)\n            return\n\n        cell = CellPayload.from_bin(data)\n",
+     "new": "        try:\n            cell = CellPayload.from_bin(data)\n        except ValueError:\n            self.logger.debug(\"Dropping truncated cell from %s\", source_address)\n            return\n"},
     {"name": "consume_all remainder accepted", "file": "ipv8/messaging/serialization.py", "rule": "consume-all",
      "old": "        elif remainder:\n", "new": "        elif remainder and False:\n"},
     {"name": "generic packer exception not converted", "file": "ipv8/messaging/serialization.py", "rule": "consume-all",
